@@ -40,6 +40,8 @@ pub struct IrrDb {
     pub errors_once: BTreeMap<String, String>,
     /// answer `C` instead of `D` for an AS without routes
     pub empty_as_c: bool,
+    /// answers are written in pieces of this many bytes (0: in one piece)
+    pub dribble: usize,
     /// make every answer at least this many bytes long without changing what it means: remarks lines in objects,
     /// repeated members / routes in lists (real registries have objects and route lists of many kilobytes)
     pub pad: usize,
@@ -82,6 +84,7 @@ impl IrrDb {
                 .unwrap_or_default(),
             empty_as_c: v["empty_as_c"].as_bool().unwrap_or(false),
             pad: v["pad"].as_u64().unwrap_or(0) as usize,
+            dribble: v["dribble"].as_u64().unwrap_or(0) as usize,
         }
     }
 
@@ -343,10 +346,21 @@ pub fn start_irrd(db: IrrDb, mode: &str) -> FakeIrrd {
                         None => db.answer(&q),
                     };
                     if let Some(a) = answer {
-                        if w.write_all(a.as_bytes()).is_err() {
+                        let piece = if db.dribble == 0 { a.len().max(1) } else { db.dribble };
+                        let mut broken = false;
+                        for part in a.as_bytes().chunks(piece) {
+                            if w.write_all(part).is_err() {
+                                broken = true;
+                                break;
+                            }
+                            let _ = w.flush();
+                            if db.dribble > 0 {
+                                std::thread::yield_now();
+                            }
+                        }
+                        if broken {
                             break;
                         }
-                        let _ = w.flush();
                     }
                 }
             });
